@@ -337,13 +337,14 @@ func (e *intervalEnv) rangeOf(v ssa.Value, facts ssau.FactSet, seen map[ssa.Valu
 	r := tr
 	switch x := v.(type) {
 	case *ssa.Const:
-		if k, ok := ssau.ConstInt(x); ok {
-			return ival{bi(k), bi(k)}, true
-		}
+		// the exact value first: an int64 view of an unsigned constant above MaxInt64 (math.MaxUint64) is negative
 		if x.Value != nil {
 			if z, ok := new(big.Int).SetString(x.Value.ExactString(), 10); ok {
 				return ival{z, z}, true
 			}
+		}
+		if k, ok := ssau.ConstInt(x); ok {
+			return ival{bi(k), bi(k)}, true
 		}
 	case *ssa.Parameter:
 		if pr, ok := e.paramRangeFromCallers(x); ok && pr.within(tr) {
